@@ -21,7 +21,8 @@ for mid in ids:
     lines = [l for l in p.stdout.split("\n") if "VIOLATION" in l or "OK" in l or "KNOWN" in l or "PATCH" in l]
     viol = [l for l in lines if l.startswith("VIOLATION")]
     with_input = [l for l in viol if "no-failing-input-found" not in l]
-    verdict = ("detected, failing input replayed" if with_input else
+    verdict = ("PATCH DOES NOT APPLY to the current tree" if "PATCH-DOES-NOT-APPLY" in p.stdout or "patch does not apply" in p.stdout else
+               "detected, failing input replayed" if with_input else
                "detected (proof/correspondence broken, no failing input found)" if viol else "MISSED")
     results[mid] = {"property": pid, "verdict": verdict,
                     "lines": [re.sub(r"replay=\S*/", "replay=", l) for l in viol], "what": meta.get("what", "")}
